@@ -443,6 +443,7 @@ func wireServer() *httptest.Server {
 
 type wireExec struct {
 	all, binned []wPart
+	mutated     bool // a part was removed / the payload was split after parts were added
 	bin         sts.Payload
 	fails       []string
 	key         strings.Builder
@@ -1039,6 +1040,47 @@ func (e *wireExec) Do(op []string) string {
 		}
 		return "refused"
 
+	case op[0] == "remove" && len(op) == 2:
+		// payload.Bin.Remove of the I-th part (a file that changed while the payload waited for its retry): the
+		// last part takes its place
+		i, ok := atoi(op[1])
+		if !ok || i < 0 || int(i) >= len(e.binned) {
+			return "bad-op"
+		}
+		ps := e.bin.GetParts()
+		if len(ps) != len(e.binned) {
+			e.fail("bin-parts: the bin holds %d parts, %d were added and not removed", len(ps), len(e.binned))
+			return "err"
+		}
+		e.bin.(interface{ Remove(sts.Binned) }).Remove(ps[i])
+		n := len(e.binned)
+		e.binned[i] = e.binned[n-1]
+		e.binned = e.binned[:n-1]
+		e.mutated = true
+		return fmt.Sprintf("ok %d", e.bin.GetSize())
+
+	case op[0] == "split" && len(op) == 2:
+		// payload.Bin.Split(N) after a partial answer: the parts from position N on form the next payload
+		nn, ok := atoi(op[1])
+		if !ok {
+			return "bad-op"
+		}
+		next := e.bin.Split(int(nn))
+		if next == nil {
+			if nn >= 1 && int(nn) < len(e.binned) {
+				e.fail("bin-split: Split(%d) of %d parts returned nil", nn, len(e.binned))
+			}
+			return "nil"
+		}
+		if nn < 1 || int(nn) >= len(e.binned) {
+			e.fail("bin-split: Split(%d) of %d parts returned a payload", nn, len(e.binned))
+			return "err"
+		}
+		e.bin = next
+		e.binned = append([]wPart(nil), e.binned[nn:]...)
+		e.mutated = true
+		return fmt.Sprintf("ok %d", e.bin.GetSize())
+
 	case op[0] == "hdr" && len(op) == 1:
 		h, err := e.bin.EncodeHeader()
 		if err != nil {
@@ -1544,6 +1586,10 @@ func (wireComp) Corpus() [][]string {
 		// conforming round trips: in memory, over HTTP (plain / gzip), real Transmit
 		with(two, "hdr", "enc 0 3 1", "enc 238 64", "decx / x -1 c 0 real 0 2", "decx / x -1 c 0 real 1 5 3",
 			"put stub / -1 x -1 c 0 0 real", "put stage / 6 x -1 c 0 0 real", "http stub 0", "http stage 9", "http stub 1"),
+		// the retry path: encoded once, a part removed (the last takes its place) / split, encoded and sent again
+		with(append(append([]string{}, two...), wPartLine("e", "", "c d", "h3", 1, 2, 30, 0, 30, 30, 5)),
+			"hdr", "http stub 0", "remove 0", "hdr", "decx / x -1 c 0 real 0 64", "put stub / -1 x -1 c 0 0 real", "http stub 0",
+			"split 1", "hdr", "decx / x -1 c 0 real 0 64", "http stage 6", "split 1", "split 0", "remove 5"),
 		// F5: a body that ends early and cleanly — truncated request over HTTP and a short reader directly
 		with(two, "put stage / -1 x 144 c 0 0 real", "put stage / -1 x 146 b 0 0 real", "put stage / 5 x 144 c 0 0 real",
 			"recv 0 4 2 c", "recv 0 4 4 c", "recv 0 4 2 b", "recv 3 9 0 c"),
@@ -1795,6 +1841,29 @@ func (wireComp) Generate(r *Rand, tier string, n int) [][]string {
 			}
 			if r.Chance(0.15) {
 				ops = append(ops, fmt.Sprintf("putgz %d %d %d", r.Intn(10), r.Range(0, 20), 20))
+			}
+			if r.Chance(0.35) {
+				// the retry path of startSend: the payload was encoded once (request failed), then a changed file is
+				// removed from it / a partial answer splits it, and what is left is encoded and sent again: header and
+				// meta-len must describe the parts the body carries NOW
+				np := 0
+				for _, l := range g.lines {
+					if strings.HasPrefix(l, "part ") {
+						np++
+					}
+				}
+				for k := r.Range(1, 2); k > 0 && np > 0; k-- {
+					if r.Chance(0.7) {
+						ops = append(ops, fmt.Sprintf("remove %d", r.Intn(np)))
+					} else {
+						ops = append(ops, fmt.Sprintf("split %d", r.Range(0, np)))
+					}
+					ops = append(ops, "hdr", fmt.Sprintf("decx %s x -1 c 0 real %d %s", escSep(sep), chunk, rs),
+						fmt.Sprintf("put %s %s %d x -1 c 0 0 real", gk, escSep(sep), r.Range(-1, 9)))
+					if sep == "/" {
+						ops = append(ops, fmt.Sprintf("http %s %d", gk, r.Intn(10)))
+					}
+				}
 			}
 		case style < 70: // malformed stream on a small payload
 			sep := pickSep()
